@@ -181,3 +181,30 @@ fn pb_key_roundtrip() {
     kani::cover!(w == 3 && n == 5);
     kani::cover!(w == 4 && n == 1);
 }
+
+/// (bounded: pre-existing vector of 1 element, packed run of 1..=2 one-byte elements, then one unpacked element)
+/// the hand-written int32 module (the codec of `int32` and of plain enums): packed and unpacked occurrences
+/// concatenate, in order, and the packed elements are decoded as varints whatever the outer wire type is
+#[kani::proof]
+#[kani::unwind(8)]
+#[kani::stub(alloc::fmt::format, stub_format)]
+fn bnd_pb_int32_repeated_packed() {
+    let old: i32 = kani::any();
+    let a: u8 = kani::any();
+    let b: u8 = kani::any();
+    let c: u8 = kani::any();
+    kani::assume(a < 128 && b < 128 && c < 128);
+    let two: bool = kani::any();
+    let mut values: Vec<i32> = vec![old];
+    let packed: [u8; 3] = [if two { 2 } else { 1 }, a, b];
+    let mut r: &[u8] = if two { &packed[..3] } else { &packed[..2] };
+    assert!(encoding::int32::merge_repeated(WireType::LengthDelimited, &mut values, &mut r, DecodeContext::default()).is_ok());
+    assert!(r.is_empty());
+    let un: [u8; 1] = [c];
+    let mut r: &[u8] = &un[..];
+    assert!(encoding::int32::merge_repeated(WireType::Varint, &mut values, &mut r, DecodeContext::default()).is_ok());
+    if two { assert!(values.len() == 4 && values[0] == old && values[1] == a as i32 && values[2] == b as i32 && values[3] == c as i32); }
+    else { assert!(values.len() == 3 && values[0] == old && values[1] == a as i32 && values[2] == c as i32); }
+    kani::cover!(two);
+    kani::cover!(!two);
+}
